@@ -343,7 +343,7 @@ def _git_op(world, op):
     if a == "init":
         g.clear()
         g.update({"mode": "repo", "commits": {}, "head": None, "dirty": False, "branches": {},
-                  "cur_branch": "main"})
+                  "cur_branch": "main", "tags": {}})
     elif a == "commit":
         name = op["name"]
         parents = op.get("parents")
@@ -366,6 +366,13 @@ def _git_op(world, op):
         if op.get("new_branch"):
             g["branches"][op["new_branch"]] = g["head"]
             g["cur_branch"] = op["new_branch"]
+    elif a == "tag":
+        # lightweight (a ref to the commit) or annotated (a tag object that points at the commit)
+        tgt = op.get("target") or g.get("head")
+        if tgt in g.get("branches", {}):
+            tgt = g["branches"][tgt]
+        if tgt is not None:
+            g.setdefault("tags", {})[op["name"]] = {"commit": tgt, "annotated": bool(op.get("annotated"))}
     elif a == "dirty":
         v = op.get("value", True)
         g["dirty"] = v if v == "staged" else bool(v)
